@@ -307,7 +307,7 @@ def r4(ctx):
     sub = Ctx(ctx.ix, 'C07', ctx.tier)
     errors = []
     for fn_ in (C07.r2,          # every fragment is consumed exactly once (a fragment in two molecules is written twice)
-                C07.r4, C07.r5, C07.r6):
+                C07.r4, C07.r5, C07.r6, C07.r10):
         try:
             fn_(sub)
         except AnalysisError as e_:
@@ -501,6 +501,78 @@ def r7(ctx):
             ctx.emit('C06-R7', False, FRAGMENT, s_, f'Fragment.__init__ bucket key {comps}: cannot show that {other} are equal for all fragments __eq__ joins', key='plain-fragment-bucket-key', undecided=True)
     if not nb:
         ctx.emit('C06-R7', True, FRAGMENT, init, 'the plain Fragment has no bucket key (one bucket)' if not keys else f'bucket key of the plain Fragment holds only {sorted(allowed)}', key='plain-fragment-bucket-key', nontrivial=bool(keys))
+
+
+def _family_ctor_params(ctx, pkgdir):
+    """(explicit constructor parameters, attributes read as self.<name>) over all classes of a sub-package"""
+    params, reads = set(), set()
+    for fn_ in sorted(ctx.ix.listdir(pkgdir)):
+        if not fn_.endswith('.py'):
+            continue
+        mod = ctx.ix.module(pkgdir + '/' + fn_)
+        for q, ds in mod.defs.items():
+            d = ds[-1]
+            if not isinstance(d, ast.FunctionDef) or '.' not in q:
+                continue
+            if q.endswith('.__init__'):
+                params |= {a.arg for a in d.args.args[1:] + d.args.kwonlyargs}
+            for x in ast.walk(d):
+                if isinstance(x, ast.Attribute) and isinstance(x.ctx, ast.Load) and isinstance(x.value, ast.Name) and x.value.id == 'self':
+                    reads.add(x.attr)
+    return params, reads
+
+
+def _class_arg_keys(f, name):
+    keys = {}
+    for n in walk_no_nested(f):
+        if isinstance(n, ast.Assign):
+            for t in n.targets:
+                if isinstance(t, ast.Subscript) and isinstance(t.value, ast.Name) and t.value.id == name and isinstance(t.slice, ast.Constant):
+                    keys.setdefault(t.slice.value, n)
+                if isinstance(t, ast.Name) and t.id == name and isinstance(n.value, ast.Dict):
+                    for k in n.value.keys:
+                        if isinstance(k, ast.Constant):
+                            keys.setdefault(k.value, n)
+        if isinstance(n, ast.Call) and isinstance(n.func, ast.Attribute) and n.func.attr == 'update' and isinstance(n.func.value, ast.Name) and n.func.value.id == name:
+            for a in n.args:
+                if isinstance(a, ast.Dict):
+                    for k in a.keys:
+                        if isinstance(k, ast.Constant):
+                            keys.setdefault(k.value, n)
+            for k in n.keywords:
+                if k.arg:
+                    keys.setdefault(k.arg, n)
+    return keys
+
+
+@rule('C06', 'C06-R8', 'the grouping options of the tagger reach the class that reads them: an option that only the fragment classes take as a constructor parameter (UMI distance, '
+                       'assignment radius, ...) is stored in fragment_class_args - in molecule_class_args it ends up in the unused keyword arguments of Molecule and the '
+                       'fragments compare with their defaults')
+def r8(ctx):
+    from .slots import BTM, P
+    f = ctx.fn(BTM, 'run_multiome_tagging')
+    fparams, freads = _family_ctor_params(ctx, P + 'fragment')
+    mparams, mreads = _family_ctor_params(ctx, P + 'molecule')
+    fkeys, mkeys = _class_arg_keys(f, 'fragment_class_args'), _class_arg_keys(f, 'molecule_class_args')
+    ctx.need('C06-R8', len(fkeys) + len(mkeys), 10, 'class argument keys set by run_multiome_tagging')
+    n = 0
+    for keys, other, own_params, other_params, own, oth in ((mkeys, fkeys, mparams, fparams, 'molecule_class_args', 'fragment_class_args'),
+                                                           (fkeys, mkeys, fparams, mparams, 'fragment_class_args', 'molecule_class_args')):
+        for k, node in sorted(keys.items()):
+            if k in own_params or k not in other_params:
+                continue       # read by its own family, or a free-form keyword nobody declares
+            n += 1
+            ok = k in other
+            ctx.emit('C06-R8', ok, BTM, node, f'`{k}` is a constructor parameter of the {oth[:-11]} classes only; it is stored in {oth}' + (f' (and in {own})' if ok else
+                     f' nowhere - only in {own}, where no constructor takes it: the value given on the command line is ignored and the default of the {oth[:-11]} classes is used'),
+                     key=f'option-routed:{k}', witness={'option': k, 'stored in': own, 'read by': f'{oth[:-11]} classes (self.{k})'} if not ok else None,
+                     what=f'run_multiome_tagging: option {k} is handed to the wrong class')
+    for k in ('umi_hamming_distance', 'assignment_radius'):
+        # the two options the grouping itself reads
+        ok = k in fkeys and k in fparams and k in freads
+        ctx.emit('C06-R8', ok, BTM, fkeys.get(k, f), f'`{k}` is stored in fragment_class_args; the fragment classes take it and read self.{k}' if ok else
+                 f'`{k}` does not reach the fragment classes (in fragment_class_args: {k in fkeys}; fragment constructor parameter: {k in fparams})', key=f'grouping-option:{k}',
+                 witness={'option': k, 'in fragment_class_args': k in fkeys} if not ok else None, what=f'run_multiome_tagging: {k} is not handed to the fragments')
 
 
 META = {
